@@ -352,6 +352,8 @@ CONFLICT_SCRIPTS = [
     (("codeB",), ("del",), ("md_src",), {}, {}),                 # delete vs metadata + source edit
     (("codeTr",), ("del",), ("collapsed_src",), {}, {}),         # delete vs transient flag + source edit
     (("codeA",), ("md_empty_add",), ("md_empty_set",), {}, {}),  # empty-string metadata values
+    (("codeA0",), ("out_add",), ("out_add2",), {}, {}),          # conflicting additions to an empty outputs list
+    (("codeJvnd",), ("out_edit",), ("out_edit2",), {}, {}),      # vendor JSON payload edited on both sides
 ]
 
 
@@ -858,7 +860,7 @@ STUBS = ["nbdime.prettyprint.which -> answers according to the tool selector (gi
 BOUNDS = {
     "quick": {
         "default-strategy scripts": "one-cell bases over 8 templates: (i) every local action x every remote action (17 code / 11 markdown actions), (ii) every insertion combination (4 x 5) x {keep, del, src1}^2, (iii) notebook-level actions {keep, md_edit, md_add, md_del, minor}^2 on two templates; two-cell base codeA+codeB x 6 actions per cell and side; ids on/off",
-        "strategy product": "38 conflict-prone script pairs x (4 merge x 5 input x 7 output strategies x transients on/off + mergetool) x {git, diff3, builtin}",
+        "strategy product": "40 conflict-prone script pairs x (4 merge x 5 input x 7 output strategies x transients on/off + mergetool) x {git, diff3, builtin}",
         "leaves": "symbolic: execution counts, metadata values (any JSON scalar type), JSON payload numbers, nbformat_minor of each notebook (0..4, or 5 with ids)",
     },
     "thorough": {
